@@ -104,3 +104,14 @@ CHECKS['C05'] = dict(level='proof',
         'checked by rule extract_field so other regressions there are not masked.',
    technique='bit-provenance normal forms, SWAR field-sum abstract domain, modular polynomial identities over instantiated LLVM IR; compile-fail existence witnesses')
 NOT_APPLICABLE.pop('C05', None)
+
+CHECKS['C06'] = dict(level='other',
+   text='For all 19 normalised formats, the integer formats, Double2x32, the Half formats, F2x11_1x10 and the templated packUnorm: bit-level placement (field i depends only on component i, '
+        'fields cover the word, component 0 in the least-significant bits), field isolation of every unpack component, the quantisation shape conv(round(clamp(x,lo,hi)*S)) with S = 2^w-1 / '
+        '2^(w-1)-1 for the documented field width, clamp bounds compared over all orderings, dequantisation by the correctly rounded 1/S (or division by S), snorm clamp and sign extension, '
+        'pure placement with the right extension for integer fields, once-per-component use of the opaque half/11-bit/10-bit codecs with exactly the field as argument, and the constants the '
+        '11/10-bit decoders/encoders return for the zero / Inf / every NaN code (partial evaluation of the inlined term at the code).',
+   note='These are necessary conditions of the lossless re-pack and half-step clauses for all inputs (writer/reader agreement, layout); the floating-point rounding argument that completes '
+        'them, monotonicity, and packF3x9_E1x5 / RGBM numerics are not decided. Level "other": structural rule set, not a proof of the numeric clauses.',
+   technique='bit-dependence and term-shape analysis of instantiated LLVM IR; ordering-domain comparison of clamps; partial evaluation at constant codes')
+NOT_APPLICABLE.pop('C06', None)
